@@ -244,8 +244,21 @@ async def episode(loop, frames_and_gaps, reads_per_step, rnd) -> dict:
     reads: list = []
     seq = 0
     errors: list = []
-    for gap, fr in frames_and_gaps:
+    bystander_at = rnd.randrange(len(frames_and_gaps)) if rnd.random() < 0.35 else -1
+    bystanders = []
+    for i_step, (gap, fr) in enumerate(frames_and_gaps):
         await asyncio.sleep(gap)
+        if i_step == bystander_at:
+            # a second gateway is created in this process (a log being replayed next to the live one): its clock is the time of
+            # its log, years away from ours - whose messages age by *our* clock
+            from types import SimpleNamespace
+
+            from ramses_rf import Gateway
+
+            other = Gateway("/dev/null", config={"disable_discovery": True, "enforce_known_list": False})
+            when = rnd.choice((dt(2001, 1, 1), dt(2037, 1, 1)))
+            other._transport = SimpleNamespace(_dt_now=lambda when=when: when)
+            bystanders.append(other)
         seen.clear()
         if fr is not None:
             await rig.feed(fr)
